@@ -1,0 +1,248 @@
+//! Verification hook (`--cfg rsjsonnet_verif` only): a scripted heap driver
+//! over the crate-private collector, so that `GcContext` can be exercised
+//! from outside the crate with arbitrary graphs of a test node type.
+//!
+//! The driver plays the role of "the program": for every node it may hold
+//! `Gc` handles and at most one `GcView`. Liveness is observed through the
+//! node's `Drop` (no extra `Weak` is kept, which would change
+//! `Rc::weak_count`).
+
+use std::cell::RefCell;
+use std::collections::HashMap;
+use std::rc::Rc;
+
+use super::{Gc, GcContext, GcTrace, GcTraceCtx, GcView};
+
+struct Node {
+    id: usize,
+    edges: RefCell<Vec<Gc<Node>>>,
+    alive: Rc<RefCell<Vec<bool>>>,
+}
+
+impl Drop for Node {
+    fn drop(&mut self) {
+        self.alive.borrow_mut()[self.id] = false;
+    }
+}
+
+impl GcTrace for Node {
+    fn trace<'a>(&self, ctx: &mut impl GcTraceCtx<'a>)
+    where
+        Self: 'a,
+    {
+        self.edges.trace(ctx);
+    }
+}
+
+/// A collector context plus the handles and views "the program" holds.
+pub struct Heap {
+    ctx: GcContext<'static>,
+    alive: Rc<RefCell<Vec<bool>>>,
+    handles: Vec<Vec<Gc<Node>>>,
+    views: Vec<Option<GcView<Node>>>,
+    addr_to_id: HashMap<usize, usize>,
+}
+
+impl Default for Heap {
+    fn default() -> Self {
+        Self::new()
+    }
+}
+
+impl Heap {
+    pub fn new() -> Self {
+        Self {
+            ctx: GcContext::new(),
+            alive: Rc::new(RefCell::new(Vec::new())),
+            handles: Vec::new(),
+            views: Vec::new(),
+            addr_to_id: HashMap::new(),
+        }
+    }
+
+    fn new_node(&mut self) -> Node {
+        let id = self.handles.len();
+        self.alive.borrow_mut().push(true);
+        Node {
+            id,
+            edges: RefCell::new(Vec::new()),
+            alive: self.alive.clone(),
+        }
+    }
+
+    fn record_last_addr(&mut self, id: usize) {
+        let inner = self.ctx.inner.borrow();
+        let addr = Rc::as_ptr(inner.objs.last().unwrap()) as *const () as usize;
+        // an address is only reused after its previous allocation is gone
+        self.addr_to_id.insert(addr, id);
+    }
+
+    /// `GcContext::alloc`: the program holds one `Gc` handle to the new node.
+    pub fn alloc(&mut self) -> usize {
+        let node = self.new_node();
+        let id = node.id;
+        let handle = self.ctx.alloc(node);
+        self.handles.push(vec![handle]);
+        self.views.push(None);
+        self.record_last_addr(id);
+        id
+    }
+
+    /// `GcContext::alloc_view`: the program holds one `GcView` of the new node.
+    pub fn alloc_view(&mut self) -> usize {
+        let node = self.new_node();
+        let id = node.id;
+        let view = self.ctx.alloc_view(node);
+        self.handles.push(Vec::new());
+        self.views.push(Some(view));
+        self.record_last_addr(id);
+        id
+    }
+
+    /// Whether the program holds a handle or a view of node `a`.
+    pub fn accessible(&self, a: usize) -> bool {
+        a < self.handles.len() && (self.views[a].is_some() || !self.handles[a].is_empty())
+    }
+
+    pub fn num_handles(&self, a: usize) -> usize {
+        self.handles.get(a).map_or(0, Vec::len)
+    }
+
+    pub fn has_view(&self, a: usize) -> bool {
+        self.views.get(a).is_some_and(Option::is_some)
+    }
+
+    // Access through what the program holds (panics with "attempted to
+    // access destroyed object" if the collector freed a node the program
+    // still has a handle to).
+    fn node_view(&self, a: usize) -> GcView<Node> {
+        match self.views[a] {
+            Some(ref view) => view.clone(),
+            None => self.handles[a][0].view(),
+        }
+    }
+
+    fn node_handle(&self, a: usize) -> Gc<Node> {
+        match self.views[a] {
+            Some(ref view) => Gc::from(view),
+            None => self.handles[a][0].clone(),
+        }
+    }
+
+    /// Appends an in-heap handle to `b` to the edge list of `a`.
+    pub fn add_edge(&mut self, a: usize, b: usize) -> bool {
+        if !self.accessible(a) || !self.accessible(b) {
+            return false;
+        }
+        let handle = self.node_handle(b);
+        self.node_view(a).edges.borrow_mut().push(handle);
+        true
+    }
+
+    /// Removes the `k`-th in-heap handle held by `a`.
+    pub fn del_edge(&mut self, a: usize, k: usize) -> bool {
+        if !self.accessible(a) {
+            return false;
+        }
+        let view = self.node_view(a);
+        let mut edges = view.edges.borrow_mut();
+        if k >= edges.len() {
+            return false;
+        }
+        drop(edges.remove(k));
+        true
+    }
+
+    pub fn drop_handle(&mut self, a: usize) -> bool {
+        a < self.handles.len() && self.handles[a].pop().is_some()
+    }
+
+    pub fn drop_view(&mut self, a: usize) -> bool {
+        a < self.views.len() && self.views[a].take().is_some()
+    }
+
+    /// `Gc::view()` on a held handle (only when no view is held yet).
+    pub fn take_view(&mut self, a: usize) -> bool {
+        if a >= self.handles.len() || self.views[a].is_some() || self.handles[a].is_empty() {
+            return false;
+        }
+        let view = self.handles[a][0].view();
+        self.views[a] = Some(view);
+        true
+    }
+
+    /// One more `Gc` handle (cloned from a held handle or made from the view).
+    pub fn take_handle(&mut self, a: usize) -> bool {
+        if !self.accessible(a) {
+            return false;
+        }
+        let handle = self.node_handle(a);
+        self.handles[a].push(handle);
+        true
+    }
+
+    pub fn gc(&mut self) {
+        self.ctx.gc();
+    }
+
+    pub fn num_objects(&self) -> usize {
+        self.ctx.num_objects()
+    }
+
+    /// Ids of the nodes whose value has not been dropped, ascending.
+    pub fn live_ids(&self) -> Vec<usize> {
+        let alive = self.alive.borrow();
+        (0..alive.len()).filter(|&i| alive[i]).collect()
+    }
+
+    /// Ids in the order of the collector's object vector.
+    pub fn objs_order(&self) -> Vec<usize> {
+        let inner = self.ctx.inner.borrow();
+        inner
+            .objs
+            .iter()
+            .map(|obj| {
+                let addr = Rc::as_ptr(obj) as *const () as usize;
+                self.addr_to_id.get(&addr).copied().unwrap_or(usize::MAX)
+            })
+            .collect()
+    }
+
+    /// Edge targets of an accessible node, by id (follows the in-heap handles).
+    pub fn edges_of(&self, a: usize) -> Option<Vec<usize>> {
+        if !self.accessible(a) {
+            return None;
+        }
+        let view = self.node_view(a);
+        let edges = view.edges.borrow();
+        Some(edges.iter().map(|e| e.view().id).collect())
+    }
+
+    /// Walks everything the program can reach from what it holds, the way an
+    /// evaluator would (`Gc::view()` on every handle followed); ascending ids.
+    pub fn walk(&self) -> Vec<usize> {
+        let n = self.handles.len();
+        let mut seen = vec![false; n];
+        let mut stack: Vec<GcView<Node>> = Vec::new();
+        for a in 0..n {
+            if self.accessible(a) {
+                let view = self.node_view(a);
+                assert_eq!(view.id, a);
+                if !seen[a] {
+                    seen[a] = true;
+                    stack.push(view);
+                }
+            }
+        }
+        while let Some(view) = stack.pop() {
+            for edge in view.edges.borrow().iter() {
+                let sub = edge.view();
+                if !seen[sub.id] {
+                    seen[sub.id] = true;
+                    stack.push(sub);
+                }
+            }
+        }
+        (0..n).filter(|&i| seen[i]).collect()
+    }
+}
